@@ -68,11 +68,11 @@ func init() {
 		},
 	})
 	def("C02", &propertyDef{
-		Decides:    "(1) the seven first-match rule tables have pairwise non-overlapping patterns (A1); (2) no range over a map in code reachable from load / render has an order-sensitive effect that is not sorted, keyed by the iteration key, owned by the iteration value or an error-only exit (ORD); (3) no package-level variable is written after init (GLOB); (4) the raw trees stay trees: no loop stores one loop-invariant map/slice under several keys (TREE), which is what the `disjoint per key` argument of ORD and the in-place mergers rely on; (5) the memoised result of an extends chain is never merged into: the base handed to ExtendService is a fresh deep clone, so the outcome does not depend on which service of the file is visited first (EXT-1); (6) a load does not write its inputs, so an earlier load cannot change a later one: no write to the caller's ConfigDetails.Environment, and a pre-parsed ConfigFile.Config only enters the in-place pipeline through a conversion that returns a new tree (INPUTS; one open finding).",
+		Decides:    "(1) the seven first-match rule tables have pairwise non-overlapping patterns (A1); (2) no range over a map in code reachable from load / render has an order-sensitive effect that is not sorted, keyed by the iteration key, owned by the iteration value or an error-only exit (ORD); (3) no package-level variable is written after init (GLOB); (4) the raw trees stay trees: no loop stores one loop-invariant map/slice under several keys (TREE), which is what the `disjoint per key` argument of ORD and the in-place mergers rely on; (5) the memoised result of an extends chain is never merged into: the base handed to ExtendService is a fresh deep clone, so the outcome does not depend on which service of the file is visited first (EXT-1); (6) a load does not write its inputs, so an earlier load cannot change a later one: no write to the caller's ConfigDetails.Environment, and a pre-parsed ConfigFile.Config only enters the in-place pipeline through a conversion that returns a new tree (INPUTS; one open finding). A lookup-miss-store memo table remembers only values that depend on nothing but their key (MEMO).",
 		NotDecided: "determinism of dependencies (yaml/json encoders sorting keys is trusted); OS and file-system nondeterminism; the order in which listeners / visitors are called; which error message is returned when several entries are invalid.",
-		Rules:      []string{"A1", "ORD", "GLOB", "TREE", "EXT-1", "INPUTS"},
+		Rules:      []string{"A1", "ORD", "GLOB", "TREE", "EXT-1", "INPUTS", "MEMO"},
 		Run: func(c *rules.Ctx) []report.Obligation {
-			return cat(c.A1("A1", allTables...), c.ORD("ORD", "LOAD", "RENDER"), c.GLOB("GLOB"), c.TREE("TREE", "LOAD"), rules.OnlyRule(c.EXT("EXT"), "EXT-1"), c.INPUTS("INPUTS"))
+			return cat(c.MEMO("MEMO"), c.A1("A1", allTables...), c.ORD("ORD", "LOAD", "RENDER"), c.GLOB("GLOB"), c.TREE("TREE", "LOAD"), rules.OnlyRule(c.EXT("EXT"), "EXT-1"), c.INPUTS("INPUTS"))
 		},
 	})
 	def("C03", &propertyDef{
